@@ -126,7 +126,14 @@ status_t StringMatcher :: SetPattern(const String & s, bool isSimple)
             {
                char c = *ptr;
 
-               if (escapeMode) escapeMode = false;
+               if (escapeMode)
+               {
+                  escapeMode = false;
+
+                  // A backslash just makes the next character literal.  But regcomp() would treat a backslash followed by a letter, a digit,
+                  // or one of <>`' as an operator or a back-reference (e.g. "\w", "\b", "\<", "\1"), so in those cases we drop the backslash.
+                  if ((muscleInRange(c, 'a', 'z'))||(muscleInRange(c, 'A', 'Z'))||(muscleInRange(c, '0', '9'))||(strchr("<>`'", c) != NULL)) regexPattern--;
+               }
                else
                {
                   switch(c)
